@@ -121,6 +121,12 @@ def run(ck, only=None):
         cases = [c for c in cases if len(c.atoms) == 1 or c.atoms[0] in pick]
         ck.cap("quick tier: 2-member records whose first member is in a rotated quarter of the alphabet; a rotated eighth of the 2^8 option "
                "combinations (always including none / all); thorough: everything")
+    # several bit-field units in one record, the large one not first: every unit counts for the 32-byte rule
+    multi = [c for c in gen_c.enumerate_records(3, atoms=["bfA", "int", "bf32B", "bf33B", "char"], rattrs=["plain"], kinds=("struct",))
+             if len(c.atoms) == 3 and c.atoms[1] in ("int", "char") and c.atoms[0].startswith("bf") and c.atoms[2].startswith("bf")]
+    for k, c in enumerate(multi):
+        c.tag = f"K{800000 + k}"
+    cases = cases + multi
     if only:
         cases = [c for c in cases if c.cid == only.get("cid")]
     batches = [(f"b{i // BATCH}", cases[i:i + BATCH]) for i in range(0, len(cases), BATCH)]
